@@ -437,7 +437,7 @@ pub fn parse_value(w: &[&str]) -> GValue {
 }
 
 /// Emit the requests that build `t` (creation + any_append), returns the root's label.
-fn build_ops(s: &mut Session, sink: &mut Sink, t: &GTree) -> usize {
+pub fn build_ops(s: &mut Session, sink: &mut Sink, t: &GTree) -> usize {
     let r = s.exec(sink, &format!("new {}", GTree::leaf(t.v.clone()).wire()));
     let root: usize = r[3..].parse().unwrap();
     for k in &t.kids {
@@ -497,23 +497,54 @@ pub fn one_history(rng: &mut Rng, sink: &mut Sink, n_ops: usize, allow_cons_off:
         };
         build_ops(&mut s, sink, &t);
     }
+    if rng.chance(1, 2) {
+        // a mixed-content element: text, element, text, comment, text …
+        let mut kids = vec![];
+        for i in 0..(3 + rng.below(4)) {
+            if i % 2 == 0 {
+                kids.push(GTree::leaf(GValue::Text(small_text(rng).replace("", "").chars().chain("t".chars()).collect())));
+            } else if rng.chance(2, 3) {
+                kids.push(GTree::new(GValue::Element(*rng.pick(&[2usize, 3])), vec![]));
+            } else {
+                kids.push(GTree::leaf(GValue::Comment("c".into())));
+            }
+        }
+        build_ops(&mut s, sink, &GTree::new(GValue::Element(4), kids));
+    }
     let mut before = s.dump();
     for _ in 0..n_ops {
         let live = s.live();
         if live.is_empty() {
             break;
         }
-        let op = pick_op(rng);
+        let mut op = pick_op(rng);
         let a = *rng.pick(&live);
-        let b = *rng.pick(&live);
+        let mut b = *rng.pick(&live);
+        // bias: nodes sitting between two text nodes are where consolidation matters
+        let between: Vec<usize> = live
+            .iter()
+            .copied()
+            .filter(|&l| {
+                let n = s.nodes[l];
+                match (s.xot.previous_sibling(n), s.xot.next_sibling(n)) {
+                    (Some(p), Some(q)) => s.xot.is_text(p) && s.xot.is_text(q),
+                    _ => false,
+                }
+            })
+            .collect();
+        if !between.is_empty() && rng.chance(1, 3) {
+            b = *rng.pick(&between);
+            op = *rng.pick(&["append", "prepend", "insert_after", "insert_before", "replace", "detach", "remove", "unwrap", "wrap"]);
+        }
         let elems: Vec<usize> = live.iter().copied().filter(|&l| s.xot.is_element(s.nodes[l])).collect();
         let e = if elems.is_empty() || rng.chance(1, 8) { a } else { *rng.pick(&elems) };
         let req = match op {
             "append" | "prepend" | "any_append" => format!("{} {} {}", op, if rng.chance(3, 4) { e } else { a }, b),
             "insert_after" | "insert_before" | "replace" => format!("{} {} {}", op, a, b),
             "append_attr_node" | "append_ns_node" => format!("{} {} {}", op, e, b),
-            "detach" | "remove" | "unwrap" | "clone" | "strip_ws" => format!("{} {}", op, a),
-            "wrap" => format!("wrap {} {}", a, rng.pick(&[2usize, 6])),
+            "detach" | "remove" | "unwrap" => format!("{} {}", op, b),
+            "clone" | "strip_ws" => format!("{} {}", op, a),
+            "wrap" => format!("wrap {} {}", b, rng.pick(&[2usize, 6])),
             "map_insert" => {
                 if rng.chance(1, 2) {
                     format!("map_insert attr {} {} {}", e, rng.pick(&[2usize, 3, 0, 6]), enc(&small_text(rng)))
